@@ -44,3 +44,18 @@ impl miette::ReportHandler for NullHandler {
 pub(crate) fn stub_capture_handler(_error: &(dyn miette::Diagnostic + 'static)) -> Box<dyn miette::ReportHandler> {
     Box::new(NullHandler)
 }
+
+/// Stub for `core::slice::memchr::memchr`: the plain byte loop. The real one switches to an aligned
+/// word-at-a-time search for haystacks of >= 16 bytes, whose prefix length depends on the numeric address of
+/// the string - nondeterministic for CBMC, so `key.split('/')` on a long `$SYS/clients/<uuid>/...` key would
+/// never fold. Same result for every input.
+pub(crate) fn stub_memchr(x: u8, text: &[u8]) -> Option<usize> {
+    let mut i = 0;
+    while i < text.len() {
+        if text[i] == x {
+            return Some(i);
+        }
+        i += 1;
+    }
+    None
+}
